@@ -69,6 +69,19 @@ def rule_arity_slots(F, ev, R, config, rule="R-ARITY-SLOTS"):
         # length guard precedes the indexing
         g = Guards(ev, b, env)
         rels, raw = g.relations_at(bi)
+        rels = list(rels)
+        # the Ok edge of `params.try_into::<&[T; N]>()` carries len(params) == N
+        for term, vals, sw in raw:
+            if term[0] == "discr" and isinstance(vals, tuple) and term[1][0] in ("opt", "cf"):
+                o = term[1] if term[1][0] == "opt" else (term[1][1] if term[1][1][0] == "opt" else None)
+                variants, _, _ = discr_variants(sw.get("body", b), sw["block"])
+                names = dict(variants or [])
+                if o is not None and vals and all(names.get(v) in ("Ok", "Some", "Continue") for v in vals if v != "otherwise"):
+                    for c in o[2]:
+                        if c[0] == "pred":
+                            r = canon_rel(c[1], True)
+                            if r:
+                                rels.append(r)
         okg = any(r[0] == "Eq" and {r[1], r[2]} == {("const", "usize", n), ("call", "core::slice::len", None, (("param", b.key, 3),), x[4] if (x := (r[1] if r[1][0] == "call" else r[2])) else None)} for r in rels if r[0] == "Eq" and (r[1][0] == "call" or r[2][0] == "call"))
         R.add(rule, config, b.key, "len-guard=%d" % n, okg, "" if okg else "the parameter slice is indexed without the guard len(params) == %d" % n, t.get("span"))
     R.floor(rule, config, 10 * 3 + 55, "10 impls: x, count, guard + 55 slots")
